@@ -1,0 +1,49 @@
+//go:build verif
+
+package gtab
+
+import (
+	"bytes"
+
+	"golang.org/x/text/language"
+	"seehuhn.de/go/sfnt/parser"
+)
+
+// Hooks for the C14 verification harness (add-only).
+
+// VerifC14OtfToBCP47 exposes otfToBCP47.
+func VerifC14OtfToBCP47(script, lang string) (language.Tag, error) {
+	return otfToBCP47(otfScript(script), otfLang(lang))
+}
+
+// VerifC14BCP47ToOtf exposes bcp47ToOtf.
+func VerifC14BCP47ToOtf(tag language.Tag) (string, string, error) {
+	s, l, err := bcp47ToOtf(tag)
+	return string(s), string(l), err
+}
+
+// VerifC14ScriptTable returns a copy of scriptBcp47.
+func VerifC14ScriptTable() map[string]string {
+	res := make(map[string]string, len(scriptBcp47))
+	for k, v := range scriptBcp47 {
+		res[string(k)] = v
+	}
+	return res
+}
+
+// VerifC14LangTable returns a copy of langBcp47.
+func VerifC14LangTable() map[string]string {
+	res := make(map[string]string, len(langBcp47))
+	for k, v := range langBcp47 {
+		res[string(k)] = v
+	}
+	return res
+}
+
+// VerifC14EncodeScriptList exposes ScriptListInfo.encode.
+func VerifC14EncodeScriptList(info ScriptListInfo) []byte { return info.encode() }
+
+// VerifC14ReadScriptList exposes readScriptList on a byte slice.
+func VerifC14ReadScriptList(data []byte) (ScriptListInfo, error) {
+	return readScriptList(parser.New(bytes.NewReader(data)), 0)
+}
